@@ -163,7 +163,66 @@ pub fn strategy() -> impl Strategy<Value = Case> {
     ]
 }
 
+/// One live context per shard, switched between suggestions off and on by update-engine (while idle)
+/// for the whole run: the single string must be the transliteration no matter what the context converted
+/// in between - off(T), on(another text), off(T) again, on(T).
+pub struct Toggling {
+    sb: Sandbox,
+    ctx: Ctx,
+    prev: String,
+}
+
+fn mk_toggling(shard: usize) -> Toggling {
+    let sb = Sandbox::new();
+    let mut o = Opts::parse("q");
+    o.english = shard & 1 != 0;
+    o.ansi = shard & 2 != 0 && shard & 4 != 0;
+    Toggling { ctx: Ctx::new(o, &sb).expect("context"), sb, prev: "kot".to_string() }
+}
+
+fn toggling_case(c: &Case, lo: &mut Toggling, st: &mut Stats) -> Result<(), Failure> {
+    let text = c.text();
+    if text.is_empty() {
+        return Ok(());
+    }
+    let case = || json!({"toggling": true, "text": text, "lead": c.lead, "word": c.word, "trail": c.trail, "raw": c.raw, "previous_text": lo.prev});
+    let pf = |p: crate::driver::PanicInfo| Failure::new(panic_kind(&p), p.to_string(), case());
+    let (lead, word, trail) = match &c.raw {
+        None => (c.lead.clone(), c.word.clone(), c.trail.clone()),
+        Some(t) => ref_split(t, false),
+    };
+    let expected = if word.is_empty() { avro(&text) } else { format!("{}{}{}", avro(&lead), avro(&word), avro(&trail)) };
+    let mut off = lo.ctx.opts;
+    off.psug = false;
+    let mut on = off;
+    on.psug = true;
+    let other = lo.prev.clone();
+    for (round, between) in [(0, &other), (1, &text)] {
+        lo.ctx.update(off, &lo.sb).map_err(pf)?;
+        let r = lo.ctx.type_text(&text).map_err(pf)?.unwrap();
+        lo.ctx.finish().map_err(pf)?;
+        if !r.lonely || r.text != expected {
+            return Err(Failure::new(
+                "transliteration-after-toggling-suggestions",
+                format!("one context switched off/on by update-engine, round {round}: typed {text:?} with suggestions off: got {}, expected {expected:?} (text converted before with suggestions on: {:?})", r.short(), if round == 0 { "-" } else { other.as_str() }),
+                case(),
+            ));
+        }
+        lo.ctx.update(on, &lo.sb).map_err(pf)?;
+        let l = lo.ctx.type_text(between).map_err(pf)?.unwrap();
+        lo.ctx.finish().map_err(pf)?;
+        if round == 1 && !l.cands.iter().any(|x| uncurl(x) == expected) {
+            return Err(Failure::new("transliteration-not-offered", format!("toggled context, suggestions on: typed {text:?}: {expected:?} not among {:?}", l.cands), case()));
+        }
+    }
+    st.label("toggled-context-cases");
+    lo.prev = text;
+    Ok(())
+}
+
 pub fn run(run: &Run) {
+    run.sharded("one-context-toggled-off-on", 16, run.tier.pick(600, 12000), 0, strategy, mk_toggling, |c: &Case, st, lo| toggling_case(c, lo, st));
+    run.require_label("toggled-context-cases", 1000);
     // exhaustive short words
     let sub: Vec<char> = "aeiouOkgtdnrsZhwy1.0".chars().filter(|c| c.is_ascii_alphanumeric()).collect();
     let mut words: Vec<String> = vec![String::new()];
